@@ -4,6 +4,9 @@ before sending anything kills the whole gthread worker process.
 
 Run:  cd /tmp/wa_C05 && PYTHONPATH=/tmp/wa_C05 /venv/bin/python _finding/1/demo.py
 """
+import os as _os
+_TREE_UNDER_TEST = _os.environ.get("GVERIF_REPO") or _os.getcwd()   # the checkout under test (was the auditing agent's scratch worktree)
+
 
 import os
 import shutil
@@ -16,7 +19,7 @@ import sys
 import tempfile
 import time
 
-ROOT = "/tmp/wa_C05"
+ROOT = _TREE_UNDER_TEST
 sys.path.insert(0, ROOT)
 
 # throw-away self-signed certificate (CN=localhost), only used by this demo
